@@ -9,6 +9,13 @@ Which model: the file-system model is *lexical* — a system call on a path look
 link is an opaque leaf.  `ensureNoSymlinks_spec`, `extract_wf` and `guard_makes_lexical` say why this is the kernel's
 reading at every call the extractors make: the extractors call the guard first, after the guard no component below
 the root is a link, and then kernel-style resolution (`Ex.resolve`, which follows links) returns the path itself.
+The driver executes the RESOLVING extractors `Ex.tarExtractR` / `Ex.zipExtractR` (`Model/ExtractR.lean`: the kernel
+follows links); `resolving_is_lexical` proves them equal to the lexical ones on every well-formed tree whose destination
+is not below a link, `extract_contained_resolving` & co. are the containment statements about them, and
+`guardless_escapes` shows that they need the guard.  Not modelled: permission bits (privileged process), `NAME_MAX` /
+`PATH_MAX` / NUL in names, a destination `/` (Go builds the prefix `//` and refuses every entry; all theorems assume
+`root ≠ []`), and the zip root test `fi.IsDir()` for a symlink-bit entry named `./` (the model refuses it at the
+containment check, Go passes the check and fails at `Symlink("", root)` — an error without effect in both).
 Quantification: every root whose text is a clean absolute path (`GoodPath`, what `filepath.Abs` returns), every
 initial file system, every mask, every list of entries (any names, kinds, modes, link targets, payload faults).
 
@@ -49,9 +56,13 @@ theorem lexical_check_spec (root : P) (hr : GoodPath root) (name : List Nat) (is
 example : lexOK [[100,115,116]] [[100,115,116,45,101,118,105,108],[120]] false = false := by decide
 example : lexOK [[100,115,116]] [[100,115,116],[120]] false = true := by decide
 
-/-- *containment, nodes* (tar and zip, links included): whatever the archive says, every path that is not at or
+/-- *containment, nodes — lexical model* (tar and zip): whatever the archive says, every path that is not at or
     below the destination names the same node after the extraction (stopped by an error or not) as before — nothing
-    outside is created, replaced, removed or linked.  Hypothesis: the ancestors of the destination exist as directories
+    outside is created, replaced, removed or linked.  In the lexical model a symbolic link is an opaque leaf, so this
+    statement covers `..`, absolute names and sibling prefixes, but says NOTHING about writing through links (it holds
+    of the guard-less loop as well); the statement about the file system that follows links is
+    `extract_contained_resolving`, which uses this one through `resolving_is_lexical` and does need the guard
+    (`guardless_escapes`).  Hypothesis: the ancestors of the destination exist as directories
     (otherwise `MkdirAll` creates them, which is the only thing it may do outside). -/
 theorem extract_contained (root : P) (hr : GoodPath root) (mask : Nat) (es : List Entry) (fs : FS)
     (hanc : ∀ j, j < root.length → ∃ m, fs.get (root.take j) = some (.dir m))
@@ -60,8 +71,9 @@ theorem extract_contained (root : P) (hr : GoodPath root) (mask : Nat) (es : Lis
   ⟨Sys.outside (extractWith_sys root _ (fun fs e => tarOne_sys root hr fs mask e) fs es) hanc q hq,
    Sys.outside (extractWith_sys root _ (fun fs e => zipOne_sys root hr fs mask e) fs es) hanc q hq⟩
 
-/-- *containment, contents*: the content and mode of every file (inode) that is not linked at or below the destination
-    before the extraction is unchanged after it … -/
+/-- *containment, contents — lexical model* (see `extract_contained_inodes_resolving` for the file system that follows
+    links): the content and mode of every file (inode) that is not linked at or below the destination before the
+    extraction is unchanged after it … -/
 theorem extract_contained_inodes (root : P) (hr : GoodPath root) (mask : Nat) (es : List Entry) (fs : FS)
     (ino : Nat) (hlt : ino < fs.inodes.size) (hout : ¬ RefsBelow root fs ino) :
     (tarExtract fs root mask es).1.inodes[ino]? = fs.inodes[ino]? ∧
@@ -184,8 +196,12 @@ theorem extract_reproduces_distinct (root : P) (mask : Nat) (es : List Entry) (f
     ∀ e ∈ es, Final root mask e (tarExtract fs root mask es).1 :=
   tar_reproduces root mask hr hroot es fs hio (distinct_paths_fresh root hr mask es fs hempty hdist hok) hok
 
-/-- *reproduction, exactly* (tar — first clause of the property).  Hypotheses, all syntactic (about the archive and
-    the text of the root) except the state of the destination:
+/-- *reproduction, exactly* (tar — first clause of the property).  **Privileged process**: the model has no
+    permission checks (the correspondence run has `CAP_DAC_OVERRIDE`), so "no error" is claimed for a process whose
+    calls are never refused for lack of permission — for an ordinary user it needs in addition that every directory
+    that receives a child later has owner write and search permission after masking (archive `[ro/ 0555, ro/f]` fails
+    with `EACCES` for uid 65534), and that the mask keeps them for implied parents.
+    Hypotheses, all syntactic (about the archive and the text of the root) except the state of the destination:
     * the destination is an existing directory or does not exist yet, nothing exists below it, every ancestor of it
       that exists is a real directory (`hanc`), in a tree where every node's parent is a directory (`WF`) and every
       file has an inode;
@@ -335,13 +351,15 @@ theorem tarOne_error_iff (fs : FS) (root : P) (mask : Nat) (e : Entry) :
     (tarOne fs root mask e).2 = false ↔ TarFails fs root mask e :=
   tarOne_fails_iff fs root mask e
 
-/-- *which entries fail* (zip): as for tar, without hard links and unreadable headers; a symbolic-link entry whose
+/-- *which entries fail* (zip): as for tar, without hard links; an entry that cannot be opened (`Kind.corrupt`:
+    unsupported compression method, bad local header) fails before anything is created; a symbolic-link entry whose
     payload (the target) cannot be read fails before anything is created; every other non-directory entry is a file -/
 theorem zipOne_error_iff (fs : FS) (root : P) (mask : Nat) (e : Entry) :
     (zipOne fs root mask e).2 = false ↔ ZipFails fs root mask e :=
   zipOne_fails_iff fs root mask e
 
-/-- *when the primitive calls fail on the modelled file system*: `MkdirAll(p)` iff some non-empty prefix of `p` exists
+/-- *when the primitive calls fail on the modelled file system* (a PRIVILEGED process: permission bits never make a
+    call fail in the model; see the note on `extract_reproduces`): `MkdirAll(p)` iff some non-empty prefix of `p` exists
     and is not a directory; `OpenFile(p, O_CREATE|O_WRONLY|O_TRUNC)` iff `p` is a directory or a symbolic link, or is
     absent and its parent is not a directory; `Symlink(t, p)` iff `t` is empty, `p` exists or the parent is not a
     directory; `Link(tg, p)` iff `tg` is not a file, `p` exists or the parent is not a directory.  (Permission bits
